@@ -233,7 +233,7 @@ def run(ctx):
         todo.append(({"app": "raw", "status": 200, "headers": [("Set-Cookie", "a=1"), ("Set-Cookie", "a=1")], "chunks": [b"", b"x" * 1_100_000, b"y"], "shape": "generator",
                       "one_event": False, "minimal_last": True}, ("GET", [])))
         todo.append(({"cls": "File", "path": files[2], "chunk_size": 3}, ("GET", [("Range", "bytes=0-1,4-5")])))
-    for _ in range(ctx.scale(4000, 100_000)):
+    for _ in range(ctx.scale(4000, 250_000)):
         r = rng.random()
         if r < 0.55:
             rec = recipes.gen_response(rng, files, allow_raise=rng.random() < 0.3)
